@@ -59,10 +59,14 @@ class Spec(PropSpec):
         cases = [F.gen_direct(ctx.rng) for _ in range(n)]
         cases += [F.gen_sim(ctx.rng) for _ in range(n // 4)]
         cases += [F.gen_dup(ctx.rng) for _ in range(n // 8)]
+        cases += [F.gen_cache(ctx.rng) for _ in range(n // 5)]
         ex = F.exhaustive_small()
         if ctx.tier == "quick":
             ex = ctx.rng.sample(ex, min(len(ex), 120))
-        return ex + cases
+        exc = F.exhaustive_cache()
+        if ctx.tier == "quick":
+            exc = ctx.rng.sample(exc, min(len(exc), 30))
+        return ex + exc + cases
 
     @staticmethod
     def _direct(case, obs):
